@@ -190,6 +190,8 @@ func OwnLayers(n *gen.Node) []Layer {
 		out = []Layer{harnessL("*gen.IsLeaf")}
 	case "asleaf":
 		out = []Layer{harnessL("*gen.AsLeaf")}
+	case "stacksafeleaf":
+		out = []Layer{harnessL("*gen.StackSafeLeaf")}
 	case "lowleaf", "lowwrap":
 		out = []Layer{harnessL("*gen.LOW")}
 	case "wrap", "wrapf":
@@ -376,7 +378,7 @@ func Text(n *gen.Node) string {
 	case "newfwe":
 		return S[0] + " " + k(0) + " " + S[1] + " " + h(0)
 	case "goerr", "new", "pkgnew", "nofmtleaf", "fmtleaf", "unimpl", "domnew", "gstatus",
-		"oldfmtleaf", "fmtrleaf", "ncleaf", "isleaf", "lowleaf", "asleaf", "elidewrap", "handledmsg", "unimpld":
+		"oldfmtleaf", "fmtrleaf", "ncleaf", "isleaf", "lowleaf", "asleaf", "stacksafeleaf", "elidewrap", "handledmsg", "unimpld":
 		return S[0]
 	case "newf":
 		return S[1] + " " + S[0] + " " + S[2]
